@@ -741,6 +741,9 @@ fn gen_value_taking(t: &mut Tape<'_>, opts: &GenOpts, a: &mut ArgSpec, _position
     }
     if matches!(a.parser, ParserSpec::Possible(_)) {
         a.ignore_case = t.chance(1, 4);
+    } else if hi >= 1 && t.chance(1, 10) {
+        // also legal on free-form values (it then only matters to value predicates of relations)
+        a.ignore_case = true;
     }
     if hi >= 1 && t.chance(1, 4) {
         let n = if hi == usize::MAX { 2 } else { hi.min(3) };
